@@ -3,7 +3,7 @@
 Require Import List ZArith Bool.
 From Dasp Require Import Base.Res Base.ListX Graph.Dfs Graph.Process.
 Import ListNotations.
-Open Scope Z_scope.
+Local Open Scope Z_scope.
 
 (* the instrumented node of the harness: identity, kind (0 pure / 1 counts its calls),
    call count, buffer value; an input buffer shows (value, identity sentinel) *)
